@@ -391,6 +391,9 @@ Proof.
   destruct (_ =? _); [apply Keeps_refl|kpure].
 Qed.
 
+Lemma abortOnReset_Keeps t : Keeps t (abortOnReset t).
+Proof. unfold abortOnReset. kpure. Qed.
+
 Lemma resetConnection_Keeps t : Keeps t (resetConnection t).
 Proof.
   unfold resetConnection. split; [cbn; apply core_eq_refl|].
